@@ -58,10 +58,18 @@ def main():
     if not os.path.abspath(C.__file__).startswith(os.path.abspath(job['src']) + os.sep):
         raise SystemExit('compiler imported from ' + C.__file__)
     out = []
+    import tempfile, shutil
+    workdir = tempfile.mkdtemp(prefix='ypsim-c18-')
+    os.chdir(workdir)
     for (pi, oi) in job['history']:
         opt = job['options'][oi]
         fn, dbg_parser, dbg_generator = opt[:3]
         fail_at = opt[3] if len(opt) > 3 else None
+        # 5th element: how the options object is made ('plain' class, the library's own 'default', a 'subclass' of
+        # CompilerContext); 6th: 'string' (compile_prolog_from_string) or 'file' (compile_prolog_from_file on a
+        # file prog<N>.pl in the worker's private directory)
+        ctxkind = opt[4] if len(opt) > 4 else 'plain'
+        via = opt[5] if len(opt) > 5 else 'string'
 
         class FailingStream(io.StringIO):
             writes = 0
@@ -72,18 +80,32 @@ def main():
                     raise OSError(28, 'No space left on device')
                 return io.StringIO.write(self, text)
 
-        class Ctx:
-            debug_filename = bool(fn)
-            debug_parser = dbg_parser
-            debug_generator = dbg_generator
-            current_source_file = fn
-            outf = FailingStream()
+        if ctxkind == 'subclass':
+            class Ctx(C.CompilerContext):
+                debug_filename = bool(fn)
+                debug_parser = dbg_parser
+                debug_generator = dbg_generator
+                outf = FailingStream()
+        else:
+            class Ctx:
+                debug_filename = bool(fn)
+                debug_parser = dbg_parser
+                debug_generator = dbg_generator
+                current_source_file = fn
+                outf = FailingStream()
         err = io.StringIO()
         real_err = sys.stderr
         sys.stderr = err            # ANTLR prints recoverable syntax errors there
         try:
             try:
-                text = C.compile_prolog_from_string(job['programs'][pi], Ctx)
+                args = () if ctxkind == 'default' else (Ctx,)
+                if via == 'file':
+                    path = 'prog%d.pl' % pi
+                    with open(path, 'w', encoding='utf8') as f:
+                        f.write(job['programs'][pi])
+                    text = C.compile_prolog_from_file(path, *args)
+                else:
+                    text = C.compile_prolog_from_string(job['programs'][pi], *args)
                 outcome = 'ok'
             except RecursionError:
                 text, outcome = '', 'EXC:RecursionError'
@@ -92,6 +114,8 @@ def main():
         finally:
             sys.stderr = real_err
         out.append([pi, oi, outcome, text, Ctx.outf.getvalue(), err.getvalue()])
+    os.chdir('/')
+    shutil.rmtree(workdir, ignore_errors=True)
     sys.stdout.write(json.dumps({'hashseed': os.environ.get('PYTHONHASHSEED'), 'out': out}))
 
 
